@@ -3,8 +3,8 @@ from collections import Counter
 from .. import gen
 from . import common
 
-SPEC_THEOREM = 'Props/C13: distinct keeps first occurrences and is idempotent; intersection/except partition the first list; overlap iff intersection non-empty'
-TRUSTED = ['Coq 8.16.1 kernel', 'translator', 'extraction + OCaml driver', 'Rust harness', 'model SetOps.v (identity = identical entry word and payload)']
+SPEC_THEOREM = 'Props/C13: distinct keeps first occurrences and is idempotent; intersection/except partition the first list; overlap iff intersection non-empty; C13_set_functions_bytes_*: the offset-faithful walkers of SetWalk.v return buf ++ enc (tree result) on encodings'
+TRUSTED = ['Coq 8.16.1 kernel', 'translator', 'extraction + OCaml driver', 'Rust harness', 'model SetOps.v (identity = identical entry word and payload); SetWalk.v (offset-faithful array_*_jsonb, refinement proved on encodings, tied to the code by correspondence including corrupt buffers)']
 ASSUMPTIONS = ['inputs are canonical encodings (identity of elements = identity of encodings)']
 RULE = 'pairs of arrays with >= 50% duplicates, equal/differing nested containers, scalar and object operands, empty arrays; binary/binary and, for finite documents, text/binary, binary/text and text/text arguments; non-trivial = non-empty result'
 
@@ -43,6 +43,54 @@ def generate(ctx):
                     ids = [ctx.add('array_distinct %s' % x).id, ctx.add('array_intersection %s %s' % (x, y)).id,
                            ctx.add('array_except %s %s' % (x, y)).id, ctx.add('array_overlap %s %s' % (x, y)).id]
                     ctx.trials.append((p, q, ids))
+    malformed(ctx)
+
+
+def mutants(ctx, e, n=14):
+    """prefixes and single-byte mutations of an encoding; header counts stay small (byte 0 only switches the container
+    type, byte 1 is left alone) so that no Rust-side allocation is driven by a corrupted count"""
+    r = ctx.rng
+    out = [e[:i] for i in range(len(e))] if len(e) <= 24 else [e[:r.randrange(len(e))] for _ in range(8)]
+    for _ in range(n):
+        i = r.randrange(len(e))
+        if i == 0:
+            nb = r.choice([0x80, 0x40, 0x20, 0x00, 0x60])
+        elif i == 1:
+            continue
+        else:
+            nb = r.choice([0, 1, 2, 3, 4, 8, 0x10, 0x20, 0x30, 0x40, 0x50, 0x60, 0x7f, 0x80, 0xff, e[i] ^ 1, e[i] ^ 0x10, (e[i] + 1) & 0xff])
+        out.append(e[:i] + bytes([nb]) + e[i + 1:])
+    return out
+
+
+def malformed(ctx):
+    # the four walkers on buffers that are NOT valid encodings: C13 says nothing about them, the offset-faithful model
+    # (SetWalk.v) does -- value, error or panic; this stream only feeds the correspondence tie
+    r = ctx.rng
+    ctx.open_classes.add('skipped-allocation')
+    small = [(a, b) for a, b, _ in ctx.trials if 8 <= len(gen.enc(a)) <= 80 and len(gen.enc(b)) <= 80]
+    for a, b in r.sample(small, min(len(small), ctx.scale(120, 3000))):
+        ea, eb = gen.enc(a), gen.enc(b)
+        ha, hb = gen.hexarg(ea), gen.hexarg(eb)
+        for m in mutants(ctx, ea):
+            h = gen.hexarg(m)
+            ctx.add('array_distinct %s' % h, kind='malformed')
+            op = r.choice(['array_intersection', 'array_except', 'array_overlap'])
+            ctx.add('%s %s %s' % (op, h, hb), kind='malformed')
+        for m in mutants(ctx, eb):
+            h = gen.hexarg(m)
+            for op in r.sample(['array_intersection', 'array_except', 'array_overlap'], 2):
+                ctx.add('%s %s %s' % (op, ha, h), kind='malformed')
+        for _ in range(4):
+            op = r.choice(['array_intersection', 'array_except', 'array_overlap'])
+            ctx.add('%s %s %s' % (op, gen.hexarg(r.choice(mutants(ctx, ea, 6))), gen.hexarg(r.choice(mutants(ctx, eb, 6)))), kind='malformed')
+
+
+def classify(ctx, c, io, mo):
+    # the harness process died on a corrupt buffer (allocation driven by a corrupted count): not judged
+    if c.kind == 'malformed' and io.startswith('abort:'):
+        return 'skipped-allocation'
+    return None
 
 
 def judge(ctx):
